@@ -61,6 +61,7 @@ func genCase(t *rapid.T) Case {
 	c.Answer.Signer = rapid.SampledFrom(signers).Draw(t, "signer")
 	c.Answer.Serial = rapid.SampledFrom([]string{"this", "this", "this", "other"}).Draw(t, "serial")
 	c.Answer.NextUpdate = rapid.SampledFrom([]string{"", "", "future", "past"}).Draw(t, "next")
+	c.Answer.RevokedAtFuture = rapid.IntRange(0, 3).Draw(t, "revfuture") == 0
 	if rapid.IntRange(0, 3).Draw(t, "mutate") == 0 {
 		c.MutPos = rapid.IntRange(0, 1<<16).Draw(t, "mutpos")
 		c.MutMask = 1 << rapid.IntRange(0, 7).Draw(t, "mutbit")
